@@ -86,3 +86,66 @@ class Schema:
 
 def odf12(repo):
     return Schema(os.path.join(repo, 'grammar', 'OpenDocument-schema-v1.2-cd04.rng'))
+
+# ---------------------------------------------------------------------------------------------------------------------
+# datatypes of attributes: a small descriptor language
+#   ('data', xsdtype, pattern|None) | ('value', literal) | ('choice', [d...]) | ('list', d) | ('star', d) | ('plus', d)
+#   | ('seq', [d...]) | ('empty',) | ('text',)
+def attr_types(S):
+    """{(element qname, attribute qname): descriptor} for every attribute pattern with a fixed name, per element it can occur on"""
+    memo = {}
+    def desc(n, stack=()):
+        t = S.tag(n)
+        if t == 'data':
+            pat = None
+            for p in n:
+                if S.tag(p) == 'param' and p.get('name') == 'pattern': pat = (p.text or '')
+            return ('data', n.get('type'), pat)
+        if t == 'value': return ('value', (n.text or ''))
+        if t == 'text': return ('text',)
+        if t == 'empty': return ('empty',)
+        if t == 'ref':
+            nm = n.get('name')
+            if nm in stack: return ('text',)
+            if nm not in memo:
+                ds = S.defs[nm]
+                parts = [seq([desc(c, stack + (nm,)) for c in d]) for d in ds]
+                memo[nm] = parts[0] if len(parts) == 1 else ('choice', parts)
+            return memo[nm]
+        if t == 'choice': return ('choice', [desc(c, stack) for c in n])
+        if t == 'list': return ('list', seq([desc(c, stack) for c in n]))
+        if t == 'zeroOrMore': return ('star', seq([desc(c, stack) for c in n]))
+        if t == 'oneOrMore': return ('plus', seq([desc(c, stack) for c in n]))
+        if t == 'optional': return ('choice', [seq([desc(c, stack) for c in n]), ('empty',)])
+        if t in ('group', 'interleave'): return seq([desc(c, stack) for c in n])
+        raise SystemExit('rnglib: unknown datatype pattern ' + str(n.tag))
+    def seq(l):
+        l = [x for x in l if x is not None]
+        return l[0] if len(l) == 1 else (('empty',) if not l else ('seq', l))
+    # attributes reachable from each element pattern (not crossing into child elements)
+    out = {}
+    def walk(n, el, stack):
+        t = S.tag(n)
+        if t == 'element': return
+        if t == 'attribute':
+            names, body = S.split(n)
+            d = seq([desc(c) for c in body]) if body else ('text',)
+            for a in names:
+                if a == ANY: continue
+                k = (el, a)
+                if k in out and out[k] != d: out[k] = ('choice', [out[k], d]) if d not in (out[k][1] if out[k][0] == 'choice' else []) else out[k]
+                else: out[k] = d
+            return
+        if t == 'ref':
+            nm = n.get('name')
+            if nm in stack: return
+            for d in S.defs[nm]:
+                for c in d: walk(c, el, stack + (nm,))
+            return
+        for c in n: walk(c, el, stack)
+    for e in S.root.iter(R + 'element'):
+        names, body = S.split(e)
+        for el in names:
+            if el == ANY: continue
+            for c in body: walk(c, el, ())
+    return out
